@@ -10,6 +10,7 @@ INCRATE = {"C09": ("seed_demo.rs", "src/composer/tests/soundness/seed_demo.rs", 
            "C12r2": ("seed_demo.rs", "src/composer/tests/seed_demo.rs", "seed_demo"),
            "C02r3": ("seed_demo.rs", "src/seed_demo.rs", "seed_demo"),
            "C19r4": ("seed_demo.rs", "src/seed_demo.rs", "seed_demo"),
+           "C10r5": ("seed_demo.rs", "src/composer/seed_demo.rs", "seed_demo"),
            "C02r4": ("seed_demo.rs", "src/seed_demo.rs", "seed_demo"),
            "C14r4": ("seed_demo.rs", "src/composer/seed_demo.rs", "seed_demo_c14"),
            "C20r4": ("seed_demo.rs", "src/commitment_scheme/kzg10/seed_demo.rs", "seed_demo"),
